@@ -530,6 +530,7 @@ def _comp_class():
             self.options.declare('spec', recordable=False)
             self.options.declare('decl', default=None, recordable=False)
             self.options.declare('coloring', default=None, recordable=False)
+            self.options.declare('decl_seq', default=None, recordable=False)
             self.ncompute = 0
 
         def setup(self):
@@ -539,12 +540,20 @@ def _comp_class():
             for n, sz in s['outs']:
                 self.add_output(n, np.zeros(sz))
             decl = self.options['decl']
-            if decl is None:
+            seq = self.options['decl_seq']
+            if seq is not None:
+                # explicit order of declare_partials / declare_coloring calls
+                for what, arg, kw in seq:
+                    if what == 'partials':
+                        self.declare_partials('*', arg, **kw)
+                    else:
+                        self.declare_coloring(**kw)
+            elif decl is None:
                 self.declare_partials('*', '*')            # analytic
             else:
                 for wrt, kw in decl.items():
                     self.declare_partials('*', wrt, **kw)
-            if self.options['coloring'] is not None:
+            if seq is None and self.options['coloring'] is not None:
                 self.declare_coloring(**self.options['coloring'])
             self._mono = [[(float(unrat(c)), vs) for c, vs in mono] for mono in s['polys']]
             self._dmono = None
@@ -656,7 +665,16 @@ def build(case, colored):
                         coloring['form'] = o['form']
                     if o.get('step') is not None:
                         coloring['step'] = float(unrat(o['step']))
-        comp = PolyComp(spec=c, decl=decl, coloring=coloring)
+        seq = None
+        if coloring is not None and case.get('color_wrt') is not None:
+            # partial coloring limited to some inputs; the other inputs are declared before or
+            # after the declare_coloring call
+            coloring['wrt'] = list(case['color_wrt'])
+            others = [('partials', wrt, kw) for wrt, kw in decl.items()
+                      if wrt not in case['color_wrt']]
+            seq = ([('coloring', None, coloring)] + others) if case.get('color_first') \
+                else (others + [('coloring', None, coloring)])
+        comp = PolyComp(spec=c, decl=decl, coloring=coloring, decl_seq=seq)
         parent.add_subsystem(c['name'], comp, promotes=['*'])
         comps.append(comp)
     if kind in ('totals', 'semi'):
@@ -779,12 +797,24 @@ def observe(case, lay, colored):
                 if coloring is None:
                     obs['coloring'] = None
                 else:
-                    obs['coloring'] = [[[int(c), [int(r) for r in nz]] for c, nz in zip(cs, nzs)]
+                    cmap = colored_columns(case, lay)
+                    obs['coloring'] = [[[cmap[int(c)], [int(r) for r in nz]]
+                                        for c, nz in zip(cs, nzs)]
                                        for cs, nzs in coloring.color_nonzero_iter('fwd')]
                     obs['coloring_shape'] = [int(x) for x in coloring._shape]
             except AttributeError as e:
                 raise Infra('cannot read the coloring of the implementation: %s' % e)
     return obs
+
+
+def colored_columns(case, lay):
+    """jacobian column indices (in wrt_columns order) that belong to the coloring, in order: the
+    coloring numbers its columns over these only"""
+    cols = wrt_columns(case, lay)
+    cw = case.get('color_wrt')
+    if cw is None or case['kind'] != 'partials':
+        return list(range(len(cols)))
+    return [i for i, c in enumerate(cols) if c['var'] in cw]
 
 
 _TV_CACHE = {}
@@ -1024,7 +1054,12 @@ class C12(Property):
 
     # -- generator ----------------------------------------------------------------------------------
     def cases(self, rng, tier):
-        n = 120 if tier == 'quick' else 7000
+        n = 100 if tier == 'quick' else 7000
+        # targeted family first: a partial coloring limited to some inputs, the other inputs
+        # approximated by the same method with different options, both declaration orders
+        for i in range(14 if tier == 'quick' else 300):
+            yield self.gen_partial_coloring(rng, color_first=(i % 2 == 0),
+                                            method='cs' if i % 7 == 6 else 'fd')
         for i in range(n):
             r = rng.random()
             if r < 0.40:
@@ -1184,6 +1219,70 @@ class C12(Property):
                 comps[ci]['guard'] = [j, '0', 'du']
             case['calls'] = ['totals']
         return case
+
+    def gen_partial_coloring(self, rng, color_first, method):
+        """`declare_coloring(wrt=<some inputs>, ...)` + `declare_partials` with *different* FD
+        options for the remaining inputs, declared before or after the coloring.  The colored
+        columns must be differenced with the options of the coloring, whatever the order."""
+        ncv = 1 if rng.random() < 0.7 else 2
+        cvars = [['x%d' % v, rng.choice([2, 3, 3, 4])] for v in range(ncv)]
+        ovars = [['g%d' % v, rng.choice([1, 2, 3])] for v in range(rng.choice([1, 1, 2]))]
+        # position of the non-colored inputs among the inputs varies too
+        k = rng.randint(0, len(cvars))
+        ins = cvars[:k] + ovars[:1] + cvars[k:] + ovars[1:]
+        fc = rng.choice(FORMS)
+        kc = rng.randint(2, 6)
+        copt = {'form': fc, 'step': rat(F(1, 2 ** kc)), 'step_calc': None, 'minimum_step': None}
+        decl = {}
+        ivc = []
+        for n, sz in ins:
+            if [n, sz] in cvars:
+                decl[n] = dict(copt) if method == 'fd' else {}
+                ivc.append([n, rats(gen_values(rng, sz, 'any'))])
+            else:
+                if method == 'fd':
+                    o = gen_opts(rng, 'fd')
+                    ko = rng.choice([x for x in range(2, 8) if x != kc])
+                    o['step'] = rat(F(1, 2 ** ko))
+                    if rng.random() < 0.6:
+                        o['form'] = rng.choice([f for f in FORMS if f != fc])
+                    decl[n] = o
+                    sc = o.get('step_calc')
+                    style = {'rel_element': 'pow2', 'rel_legacy': 'pyth', 'rel': 'avgpow2',
+                             'rel_avg': 'avgpow2'}.get(sc, 'any')
+                else:
+                    decl[n] = {}
+                    style = 'any'
+                ivc.append([n, rats(gen_values(rng, sz, style))])
+        # local flat positions
+        pos = {}
+        p0 = 0
+        for n, sz in ins:
+            pos[n] = list(range(p0, p0 + sz))
+            p0 += sz
+        ccols = [j for n, sz in cvars for j in pos[n]]
+        ocols = [j for n, sz in ovars for j in pos[n]]
+        nout = len(pos[cvars[0][0]])
+        polys = []
+        for i in range(nout):
+            mono = []
+            j = pos[cvars[0][0]][i]
+            mono.append([rat(rng.choice(COEFS)), [j] * rng.choice([2, 3])])      # nonlinear, diagonal
+            if rng.random() < 0.5:
+                mono.append([rat(rng.choice(COEFS)), [j]])
+            if ncv == 2:
+                j2 = pos[cvars[1][0]][i % cvars[1][1]]
+                mono.append([rat(rng.choice(COEFS)), [j2] * rng.choice([1, 2])])
+            for _ in range(rng.randint(1, 2)):
+                jo = rng.choice(ocols)
+                mono.append([rat(rng.choice(COEFS)),
+                             sorted([jo] * rng.choice([1, 1, 2]) + ([j] if rng.random() < 0.3 else []))])
+            polys.append(mono)
+        comp = {'name': 'c', 'ins': ins, 'outs': [['y', nout]], 'polys': polys, 'guard': None}
+        return {'kind': 'partials', 'method': method, 'ivc': ivc, 'comps': [comp], 'decl': decl,
+                'colored': True, 'color_wrt': [n for n, _ in cvars], 'color_first': bool(color_first),
+                'color_opts': {'form': copt['form'], 'step': copt['step']} if method == 'fd' else {},
+                'calls': ['totals', 'totals', 'linearize']}
 
     def gen_bad(self, rng):
         case = self.gen_partials(rng)
@@ -1353,7 +1452,7 @@ class C12(Property):
         rows = of_rows(case, lay)
         dep = self.structural_dep(case, lay, cols, rows)
         covered = {jc for color in coloring for jc, _ in color}
-        for jc in range(len(cols)):
+        for jc in colored_columns(case, lay):
             if jc not in covered and any(jc in dep[r] for r in range(len(rows))):
                 return False            # a dependent column left out of every color
         for color in coloring:
@@ -1373,7 +1472,9 @@ class C12(Property):
     def rel_coloring(self, case):
         if case['method'] != 'fd' or case['kind'] != 'partials':
             return False
-        return any((o.get('step_calc') or 'abs') != 'abs' for o in case['decl'].values())
+        cw = case.get('color_wrt')
+        return any((o.get('step_calc') or 'abs') != 'abs' for n, o in case['decl'].items()
+                   if cw is None or n in cw)
 
     def oracle(self, case, impl):
         fails = self.oracle_all(case, impl)
@@ -1420,6 +1521,9 @@ class C12(Property):
             b.append('check_partials:%s' % case['check_opts']['method'])
             if 'check_totals' in case['calls']:
                 b.append('check_totals:%s' % case['check_opts']['method'])
+        if case.get('color_wrt') is not None:
+            b.append('partial_coloring:%s' % ('coloring_declared_first' if case.get('color_first')
+                                              else 'coloring_declared_last'))
         if impl.get('col', {}).get('coloring'):
             col = impl['col']['coloring']
             b.append('coloring:structural' if self.coloring_structural(case, Layout(case), col)
@@ -1572,8 +1676,11 @@ class C12(Property):
                          'colors': coloring})
             plan.append(('certify', None))
             jobs = []
+            ccols = colored_columns(case, lay)
             if kind == 'partials':
-                first = cols[-1]            # _wrt_meta is filled in reverse declaration order
+                # _wrt_meta is filled in reverse declaration order; the datum is that of the first
+                # *colored* wrt in it
+                first = cols[ccols[-1]]
                 first_var = first['var']
                 first_opts = dict(case['decl'][first_var])
             else:
@@ -1596,6 +1703,10 @@ class C12(Property):
                 j = self.job_opts(first_opts, indep[first_var], 0)
                 j.update({'info': [[vec, positions]], 'emit': emit})
                 jobs.append(j)
+            outside = [c for i, c in enumerate(cols) if i not in set(ccols)]
+            if outside:
+                extra = jobs_for(lambda col: col['opts'], cols)
+                jobs.extend(j for i, j in enumerate(extra) if i not in set(ccols))
             r = dict(base_req)
             r['jobs'] = jobs
             reqs.append(r)
@@ -1603,8 +1714,11 @@ class C12(Property):
         return reqs
 
     def structural_dep(self, case, lay, cols, rows):
-        """for every response row the list of column indices it structurally depends on"""
-        colidx = {(c['var'], c['k']): i for i, c in enumerate(cols)}
+        """for every response row the list of *colored* column indices it structurally depends on
+        (columns outside a partial coloring are approximated one by one and play no role in the
+        certificate)"""
+        keep = set(colored_columns(case, lay))
+        colidx = {(c['var'], c['k']): i for i, c in enumerate(cols) if i in keep}
         depvar = {}
         for n, v in lay.ivc:
             for k in range(len(v)):
